@@ -93,6 +93,11 @@ def get_widths(seq: Iterable[object]) -> Dict[Union[str, int], float]:
     return cast(Dict[Union[str, int], float], widths)
 
 
+def _isfinitenumber(v: object) -> bool:
+    """A number other than the infinity that an overlong real is read as."""
+    return isinstance(v, (int, float)) and safe_float(v) is not None
+
+
 def get_widths2(seq: Iterable[object]) -> Dict[int, Tuple[float, Point]]:
     """Build a mapping of character widths for vertical writing."""
     widths: Dict[int, Tuple[float, Point]] = {}
@@ -102,10 +107,10 @@ def get_widths2(seq: Iterable[object]) -> Dict[int, Tuple[float, Point]]:
             if r:
                 char1 = r[-1]
                 for i, (w, vx, vy) in enumerate(choplist(3, v)):
-                    if all(isinstance(x, (int, float)) for x in (w, vx, vy)):
+                    if all(_isfinitenumber(x) for x in (w, vx, vy)):
                         widths[cast(int, char1) + i] = (w, (vx, vy))
                 r = []
-        elif isinstance(v, (int, float)):  # == utils.isnumber(v)
+        elif _isfinitenumber(v):
             r.append(v)
             if len(r) == 5:
                 (char1, char2, w, vx, vy) = r
@@ -1158,7 +1163,7 @@ class PDFCIDFont(PDFFont):
             widths2 = get_widths2(list_value(spec.get("W2", [])))
             self.disps = {cid: (vx, vy) for (cid, (_, (vx, vy))) in widths2.items()}
             dw2 = [resolve1(v) for v in list_value(spec.get("DW2", [880, -1000]))]
-            if len(dw2) != 2 or not all(isinstance(v, (int, float)) for v in dw2):
+            if len(dw2) != 2 or not all(_isfinitenumber(v) for v in dw2):
                 dw2 = [880, -1000]
             (vy, w) = dw2
             self.default_disp = (None, vy)
@@ -1172,7 +1177,7 @@ class PDFCIDFont(PDFFont):
             self.default_disp = 0
             widths = get_widths(list_value(spec.get("W", [])))
             default_width = resolve1(spec.get("DW", 1000))
-            if not isinstance(default_width, (int, float)):
+            if not _isfinitenumber(default_width):
                 default_width = 1000
         PDFFont.__init__(self, descriptor, widths, default_width=default_width)
 
